@@ -746,6 +746,16 @@ func (ex *Exec) runBlock(s *State, fr *Frame, b *ssa.BasicBlock, from int) {
 			ex.emit(s, "safety", ex.obName(fr, "panic", x), False, x.Pos(), "explicit panic reachable")
 			return
 		case *ssa.Call:
+			if fr.top && ex.contract != nil && len(ex.contract.GhostAt) > 0 {
+				// ghost assignments anchored at this statement (evaluated in the state before the call)
+				a := ex.anchor(x.Pos())
+				for _, g := range ex.contract.GhostAt {
+					if strings.Contains(a, g.Anchor) {
+						env := &SpecEnv{ex: ex, cur: s, old: fr.entry, vars: map[string]Value{}, fn: fr.fn, fr: fr}
+						s.ghost[g.Name] = env.eval(g.Expr)
+					}
+				}
+			}
 			// calls may fork; continue in continuation
 			idx := i
 			ex.call(s, fr, x, func(s2 *State, fr2 *Frame, v Value) {
